@@ -33,7 +33,7 @@ struct IN_t nondet_IN(void);
 
 static const char ALPHA[5] = { '\\', '\n', '\r', 'a', ' ' };
 
-void h_splice_lines(void) {
+static void splice_common(int mode) {
   HAVOC_IN();
   __CPROVER_assume(IN.len <= NBUF);
   char orig[NBUF + 1], buf[NBUF + 1];
@@ -44,16 +44,22 @@ void h_splice_lines(void) {
   orig[NBUF] = 0;
   for (int i = 0; i <= NBUF; i++) buf[i] = orig[i];
 
-  // ---- reference: surviving characters of the original with their physical line ----
-  char rch[NBUF]; int rline[NBUF]; int rn = 0;
-  int line = 1;
+  // ---- reference: surviving characters of the original with their physical line, and the number
+  //      of splices between the start of their logical line and them ----
+  char rch[NBUF]; int rline[NBUF]; int rlag[NBUF]; int rn = 0;
+  int line = 1, pending = 0; bool splicing = false;
   for (int i = 0; i < NBUF; i++) {
     if (i >= IN.len) break;
     char c = orig[i];
-    if (c == '\r') { if (!(i + 1 < IN.len && orig[i + 1] == '\n')) line++; continue; }  // CR LF counts at the LF
-    if (c == '\n') { line++; continue; }
-    if (c == '\\' && i + 1 < IN.len && (orig[i + 1] == '\n' || orig[i + 1] == '\r')) continue;  // spliced away
-    rch[rn] = c; rline[rn] = line; rn++;
+    if (c == '\r' && i + 1 < IN.len && orig[i + 1] == '\n') continue;              // CR LF counts at the LF
+    if (c == '\r' || c == '\n') {
+      line++;
+      if (splicing) pending++; else pending = 0;
+      splicing = false;
+      continue;
+    }
+    if (c == '\\' && i + 1 < IN.len && (orig[i + 1] == '\n' || orig[i + 1] == '\r')) { splicing = true; continue; }  // spliced away
+    rch[rn] = c; rline[rn] = line; rlag[rn] = pending; rn++;
   }
   int rnewlines = line - 1;
 
@@ -63,8 +69,6 @@ void h_splice_lines(void) {
 
   int n = 0, newlines = 0;
   while (n <= NBUF && buf[n]) { if (buf[n] == '\n') newlines++; n++; }
-  VASSERT(n <= IN.len, "processed buffer is not longer than the original");
-  VASSERT(newlines == rnewlines, "number of newlines == number of physical line ends of the original");
 
   // one token per surviving non-newline character, then the real add_line_numbers
   static Token toks[NBUF + 1];
@@ -83,12 +87,26 @@ void h_splice_lines(void) {
   current_file = &file;
   add_line_numbers(&toks[0]);
 
-  VASSERT(nt == rn, "the surviving characters are those of the reference (only CR, LF and spliced backslashes vanish)");
-  for (int k = 0; k < NBUF; k++) {
-    if (k >= nt || k >= rn) break;
-    VASSERT(*toks[k].loc == rch[k], "surviving characters keep their order and value");
-    VASSERT(toks[k].line_no == rline[k], "line computed by add_line_numbers == physical line in the original buffer");
+  if (mode == 0) {
+    VASSERT(n <= IN.len, "processed buffer is not longer than the original");
+    VASSERT(newlines == rnewlines, "number of newlines == number of physical line ends of the original");
+    VASSERT(nt == rn, "the surviving characters are those of the reference (only CR, LF and spliced backslashes vanish)");
+    VASSERT(toks[nt].line_no == 1 + rnewlines, "EOF token is on the last line");
   }
-  VASSERT(toks[nt].line_no == 1 + rnewlines, "EOF token is on the last line");
+  __CPROVER_assume(nt == rn);   // (asserted in mode 0)
+  for (int k = 0; k < NBUF; k++) {
+    if (k >= nt) break;
+    if (mode == 0) VASSERT(*toks[k].loc == rch[k], "surviving characters keep their order and value");
+    if (mode == 1 && rlag[k] == 0)
+      VASSERT(toks[k].line_no == rline[k], "no splice earlier on its logical line: computed line == physical line");
+    if (mode == 2)
+      VASSERT(toks[k].line_no == rline[k] - rlag[k], "computed line == physical line minus the splices since the start of the logical line");
+    if (mode == 3)
+      VASSERT(toks[k].line_no == rline[k], "C11 6.10.4p2: computed line == physical line, also after a splice");
+  }
   VCOVER();
 }
+void h_splice_count(void) { splice_common(0); }
+void h_splice_unspliced(void) { splice_common(1); }
+void h_splice_lag(void) { splice_common(2); }
+void h_splice_c11(void) { splice_common(3); }
